@@ -766,6 +766,17 @@ fn casts_for<T: El>(tr: &mut Trace, rng: &mut Rng, thorough: bool) {
                 let q = arr_q(qshape, (0..nq).map(|i| pts[i % 3]).collect(), Lay::C);
                 b.q(tr, Entry::Array, tag, &q, Lay::C);
                 b.q(tr, Entry::ArrayInto, tag, &q, Lay::C);
+                // failing batches: the fast path must fail exactly like the general path
+                // (one bad element in the middle; two different bad elements)
+                if nq == 3 {
+                    let lo = T::of_f64(-3.0);
+                    let hi = T::of_f64(90.0);
+                    for bad in [[pts[0], lo, pts[2]], [lo, pts[1], hi], [pts[0], hi, lo]] {
+                        let q = arr_q(qshape, bad.to_vec(), Lay::C);
+                        b.q(tr, Entry::Array, tag, &q, Lay::C);
+                        b.q(tr, Entry::ArrayInto, tag, &q, Lay::C);
+                    }
+                }
             }
         }
     }
@@ -802,6 +813,16 @@ fn casts_for<T: El>(tr: &mut Trace, rng: &mut Rng, thorough: bool) {
                 let qy = arr_q(qshape, (0..nq).map(|i| py[i % 3]).collect(), Lay::C);
                 b.q(tr, Entry::Array, tag, &qx, &qy, Lay::C);
                 b.q(tr, Entry::ArrayInto, tag, &qx, &qy, Lay::C);
+                if nq == 3 {
+                    let lo = T::of_f64(-30.0);
+                    let hi = T::of_f64(90.0);
+                    for (bx, by) in [([px[0], lo, px[2]], [py[0], py[1], py[2]]), ([lo, px[1], px[2]], [py[0], py[1], hi]), ([px[0], px[1], hi], [py[0], lo, py[2]])] {
+                        let qx = arr_q(qshape, bx.to_vec(), Lay::C);
+                        let qy = arr_q(qshape, by.to_vec(), Lay::C);
+                        b.q(tr, Entry::Array, tag, &qx, &qy, Lay::C);
+                        b.q(tr, Entry::ArrayInto, tag, &qx, &qy, Lay::C);
+                    }
+                }
             }
         }
     }
